@@ -42,7 +42,7 @@ RULE = ("stacks = [KDSubset | RepeatWrapper]? + seeded sample wrapper(s) + [KDSu
         "patch tensors), two stacked transform wrappers (deterministic or seeded, list-valued views flowing upwards), "
         "KDMultiViewWrapper over every config form of its constructor (int, (n, None), dict(n_views), transform object, (n, t), "
         "[n, t], dict(n_views, transform), dict(transform), KDMultiViewConfig, (n, dict(kind)), bare list, plain callable), "
-        "KDMixWrapper(seed) (mixup) below / above seeded transform wrappers, SemsegTransformWrapper(seed) over semseg and "
+        "KDMixWrapper(seed) (mixup) below / above seeded transform wrappers (incl. a dedicated family reading a noise-adding XTransformWrapper above the mix wrapper through the fused accessor), SemsegTransformWrapper(seed) over semseg and "
         "image-only members, Byol / ImagenetMinaug (multi-view and x) / ImagenetNoaug / MUGS wrappers of kappadata.common; "
         "seeds: 0 (falsy) for >= 25% of the seeded layers of every wrapper kind, 1, 5, 2^31-1, 2^32-1, 2^32, 2^62 and random ones; dataset sizes 2..10. Plus stream probes: identical "
         "underlying samples + a noise transform in 12 container shapes inside each wrapper kind. distinct by full spec; trivial = "
@@ -106,9 +106,10 @@ def gen_cases(run):
     rng = run.rng
     flags = _flags(run)
     n_probe = run.n(50, 16 * 300)
-    n_stack = run.n(125, 16 * 1000)
+    n_stack = run.n(118, 16 * 1000)
     n_common = run.n(8, 16 * 30)
-    plan = ["probe"] * n_probe + ["stack"] * n_stack + ["common"] * n_common
+    n_fused = run.n(10, 16 * 60)
+    plan = ["probe"] * n_probe + ["stack"] * n_stack + ["common"] * n_common + ["fused"] * n_fused
     rng.shuffle(plan)
     loader_share = 0.3
     zero = {}
@@ -129,6 +130,8 @@ def gen_cases(run):
             st = S.gen_probe(rng)
         elif kind == "common":
             st = S.gen_stack(rng, flags, family="common")
+        elif kind == "fused":
+            st = S.gen_fused(rng, flags)
         else:
             st = S.gen_stack(rng, flags, family=rng.choice(["xtw", "xtw", "xtw", "xtw2", "mv", "mv", "mix", "semseg", "semseg"]))
         zero_quota(st)
@@ -473,6 +476,11 @@ def _children(node):
     return []
 
 
+def _fused(mode, layer):
+    items = mode.split(" ")
+    return (layer["w"] == "mix" and "x" in items and "class" in items) or (layer["w"] == "semseg" and "x" in items and "semseg" in items)
+
+
 def _same_kind(f, g):
     return g is not None and g["kind"].split(":")[0] == f["kind"].split(":")[0]
 
@@ -587,6 +595,21 @@ def _reduce(spec, finding):
                 out.append((solo, g, S.wrapper_family(layer)))
         else:
             out.append((solo, g, S.wrapper_class_name(layer)))
+    if not any_hit:
+        # no seeded layer violates alone: try adjacent pairs of seeded layers under the original mode (e.g. a transform wrapper
+        # above a mix wrapper read through the fused accessor)
+        seeded_pos = [i for i, l in enumerate(layers) if l["w"] in S.SEEDED]
+        for a, b in zip(seeded_pos, seeded_pos[1:]):
+            if b != a + 1:
+                continue
+            T = dict(layers[a]["in"])
+            T.pop("multi", None)
+            pair = dict(spec, data=dict(spec["data"], T=T), layers=[layers[a], layers[b]], loaders=[], probe=None)
+            pair.pop("_trivial", None)
+            g = judge(pair)
+            if _same_kind(finding, g):
+                out.append((pair, g, f"stack:{S.wrapper_family(layers[a])}+{S.wrapper_family(layers[b])}:mode={'fused' if _fused(spec['mode'], layers[a]) else 'plain'}"))
+                any_hit = True
     if not any_hit:
         out.append((spec, finding, "stack"))
     return out
